@@ -1183,6 +1183,13 @@ impl<B: Bitmap> GuestRegionMmap<B> {
 //@endfn
 
 // the region's own address validation and the raw host address it hands out
+//@fn src/guest_memory.rs :: pub trait GuestMemoryRegion :: last_addr :: tags=C02,C07 :: id=guest_memory::GuestMemoryRegion::last_addr(mmap)
+//@spec
+    // what GuestRegionMmap::new guarantees (V-mmapcol): the region is not empty and does not wrap
+    requires self.s_len() >= 1, self.guest_base.0 + self.s_len() - 1 <= u64::MAX,
+    ensures r.0 == self.guest_base.0 + self.s_len() - 1, // [C02]
+//@end
+//@endfn
 //@fn src/guest_memory.rs :: pub trait GuestMemoryRegion :: address_in_range :: tags=C02,C01,C07 :: id=guest_memory::GuestMemoryRegion::address_in_range(mmap)
 //@spec
     ensures r == (addr.0 < self.s_len()), // [C02,C01]
